@@ -8,24 +8,29 @@ for d in sorted(glob.glob(os.path.join(ROOT, "seeded", "S*", ""))):
     hist = m.get("history", [])
     missed = any(h.get("detected_by") == [] for h in hist)
     note = next((h.get("note", "") for h in hist if h.get("note")), "")
-    rows.append((m["id"], m["property"], ", ".join(m.get("detected_by", [])) or "-",
-                 ("missed at first; " + note.split(" - ", 1)[-1]) if missed else "caught at first evaluation"))
+    det = m.get("detected_by", [])
+    rows.append((m["id"], m["property"], ", ".join(det) or "-",
+                 (("missed at first; " if det else "MISSED; ") + note.split(" - ", 1)[-1]) if missed else "caught at first evaluation"))
 table = "\n| seed | property | detected by | notes |\n|---|---|---|---|\n" + "\n".join("| %s | %s | %s | %s |" % r for r in rows) + "\n"
 p = os.path.join(ROOT, "DESIGN.md")
 s = open(p).read()
 a = s.index("\n| seed | property | detected by | notes |")
 b = s.index("\nPattern of the misses")
 s = s[:a] + table + s[b:]
-n_missed = sum(1 for r in rows if r[3].startswith("missed"))
+n_missed = sum(1 for r in rows if r[3].startswith(("missed", "MISSED")))
+n_open = sum(1 for r in rows if r[2] == "-")
+open_ids = ", ".join(r[0] for r in rows if r[2] == "-") or "none"
 import re
 s = re.sub(r"Pattern of the misses.*?the bounds stayed exhaustive\.",
-           f"Pattern of the misses ({n_missed} of {len(rows)} seeds were missed at first, all are detected now): every one was a gap in an *alphabet* "
+           f"Pattern of the misses ({n_missed} of {len(rows)} seeds were missed at first; not detected so far: {open_ids}): every one was a gap in an *alphabet* "
            "(no grouped IN-subquery, no expression ORDER BY key, comment texts too short, no column spelled like a table, no `CAST ... FORMAT`, "
            "one source name per alias, join kind x residual ON beyond the cost bound, no per-call `normalize=False`, construct pairs only in the base "
            "dialect, no wrapped option list, no user-defined type, only the bare equi-join condition, only `quoted=True` identifiers, no column-list "
            "alias over a 3-branch set operation, no set-operation body in a scalar subquery, no foreign dialect's keyword in unit position, no nested WITH named like a table, "
-           "no conditional with constant branches, every inner query always aliased, no chain of divisions, no two inputs that are equal as expressions but differ as text) or in the "
-           "*scheduling points / harness bodies* of C19 (chosen by function name; none while a module body executes; none in the callee that fills a published table; identity-only generation) - never an oracle that was "
-           "too weak. The alphabets / point sets were widened accordingly; the bounds stayed exhaustive.", s, flags=re.S)
+           "no conditional with constant branches, every inner query always aliased, no chain of divisions, no two inputs that are equal as expressions but differ as text, no literal / star position judged, no class defined outside the library, no two kinds of quoted text in one statement, "
+           "no text spanning lines inside a wrapped construct, .sql() never rooted at a leaf, no re-aliased base table, no compound interval, no case-expanding letter, no CTE referenced twice with "
+           "different column lists, no reordered re-registration, no DISTINCT with GROUP BY, no non-positive subscript, no leading byte order mark) or in the "
+           "*scheduling points / harness bodies* of C19 (chosen by function name; none while a module body executes; none in the callee that fills a published table; identity-only generation) - and three times a *reference* that was built by the code under test itself (C17 leaves compared by name, C18 references replaying the same add_table calls, "
+           "C15 twins equal under the library's own equality). The alphabets / point sets were widened accordingly; the bounds stayed exhaustive.", s, flags=re.S)
 open(p, "w").write(s)
 print(len(rows), "seeds,", n_missed, "missed at first")
